@@ -15,6 +15,8 @@ def class_map(name):
         return lambda f: f % 2
     if name == "mod3":
         return lambda f: 100 + f % 3
+    if name == "mixed":
+        return lambda f: f if f % 2 else f"c{f}"          # class ids of different, mutually unorderable types
     raise ValueError(name)
 
 
@@ -30,7 +32,7 @@ def gen_config(rng, kind, flavour, nflows=None, cmap=None, base=None):
     elif kind == "SP":
         cmap = cmap or rng.choice(["identity", "identity", "shift", "mod2"])     # only labels packet.priorities
     else:
-        cmap = cmap or rng.choice(["identity", "identity", "shift", "mod2", "mod3"])
+        cmap = cmap or rng.choice(["identity", "identity", "shift", "mod2", "mod3", "mixed"])
     f2c = class_map(cmap)
     classes = []
     for f in flows:
@@ -49,6 +51,10 @@ def gen_config(rng, kind, flavour, nflows=None, cmap=None, base=None):
             cfg["table"] = {f: rng.choice([1, 2, 3, 3, 5]) for f in flows}          # keyed by flow
     elif kind == "WFQ":
         cfg["table"] = {c: rng.choice([1, 1, 2, 3, 0.5, 2.5, 0.1, 0.2, 0.3, 0.7] if flavour == "float" else [1, 1, 2, 4, 0.5]) for c in classes}
+        if flavour == "float" and rng.random() < 0.12:
+            # tiny weights: the virtual time runs a million times faster than the clock (V passes 2**20 within
+            # seconds of one busy period); the law is the same
+            cfg["table"] = {c: w * rng.choice([1e-6, 5e-7]) for c, w in cfg["table"].items()}
     elif kind == "VC":
         cfg["table"] = {c: rng.choice([0.5, 1, 1, 2, 0.25]) for c in classes}
     elif kind == "DRR":
@@ -67,7 +73,10 @@ def build(net, cfg):
     env = net.env
     k, rate, t = cfg["kind"], cfg["rate"], cfg["table"]
     f2c = class_map(cfg["cmap"])
-    tbl = {int(a) if not isinstance(a, int) else a: b for a, b in t.items()} if isinstance(t, dict) else list(t)
+    def key(a):
+        # table keys are ints, or strings like "c2" (mixed-type class ids); a replayed case has them all as strings
+        return a if isinstance(a, int) else (int(a) if a.lstrip("-").isdigit() else a)
+    tbl = {key(a): b for a, b in t.items()} if isinstance(t, dict) else list(t)
     if k == "SP":
         s = SP(env, rate, tbl, flow2class=f2c)
     elif k == "WFQ":
@@ -135,9 +144,34 @@ class Run:
             sput(p)
             if counters:
                 self.check_counters("out")
+            k = len(self.dep) - 1
+            if echo and echo.get(str(k)) and self.echoed < 3 * len(case["arrivals"]):
+                # an ack-clocked peer: the next hop hands the next packet of that flow to the scheduler at once,
+                # from inside its own put()
+                self.echoed += 1
+                q = net.make_packet(p.flow_id, p.size, 100000 + self.echoed, src="echo")
+                sched.put(q)
 
         self.just_left = None
+        echo = case.get("echo")
+        self.echoed = 0
         sched.put, sched.send_packet, self.sink.put = put, send_packet, out
+        if case.get("out_store"):
+            # the next hop is a library Store drained by a process (a legal receiver: anything with put())
+            from onl.sim import Store
+            st = Store(env)
+            st_put = st.put
+
+            def store_put(p):
+                out(p)
+                return st_put(p)
+            st.put = store_put
+            sched.out = st
+
+            def drain():
+                while True:
+                    yield st.get()
+            env.process(drain())
         if counters:
             env.post_hooks.append(lambda e: self.check_counters("step"))
         # a second, independent scheduler of the same kind and tables lives in the same environment (the ports of
@@ -222,7 +256,15 @@ def gen_case(rng, kind, flavour=None, n=None, static=False, cmap=None, nflows=No
             if rng.random() < 0.1:
                 shift += 64
             a["t"] += shift
+    if not static and rng.random() < 0.3:
+        for a in arr:
+            if rng.random() < 0.3:
+                a["late"] = rng.choice([1, 1, 2, 3, 5])      # arrives later inside its instant (after the decisions taken at it)
     case = {"cfg": cfg, "flavour": flavour, "arrivals": arr, "static": static}
+    if rng.random() < 0.15:
+        case["out_store"] = True
+    if rng.random() < 0.2:
+        case["echo"] = {str(k): True for k in range(3 * len(arr)) if rng.random() < 0.35}
     if rng.random() < 0.3:
         tw = vnet.gen_arrivals(rng, len(cfg["flows"]), flavour, rng.randint(3, 40), sizes, None, burst_p=0.5, flows=cfg["flows"])
         case["twin"] = tw
